@@ -83,3 +83,12 @@ PROPS["C09"] = {
     "explanation": "finite tables: data-structure invariants of every opcode table (39 tables x every opcode slot x 7 category sets) and equality with the `opcode` module of the 9 installed CPythons, decided by exhaustive evaluation of /repo's tables as imported",
     "assumptions": [],
 }
+
+PROPS["C06"] = {
+    "level": "proof",
+    "contracts": [
+        ("contracts.load", "xdis.load:load_module_from_file_object"),
+    ],
+    "assumptions": ["which version a magic belongs to: CPython's registry for final releases (C08 proves xdis agrees with it); PyPy corpus magics: the header layout of the CPython version they implement (no PyPy in the sandbox)",
+                    "files shorter than 50 bytes are rejected by load_module before this function (precondition len >= 50)"],
+}
